@@ -1498,7 +1498,9 @@ func (a *align) MaxCharStats(ignoreGaps, ignoreNs bool) (out []uint8, occur []in
 			// Otherwise, if v > max, we update max occurence char
 			if !(ignoreGaps && k == GAP) && !(ignoreNs && (k == all || k == allc)) {
 				total[site] += v
-				if v > max {
+				// Ties are broken by the smallest character, so that the result
+				// does not depend on the (random) iteration order of the map
+				if v > max || (v == max && k < out[site]) {
 					out[site] = k
 					occur[site] = v
 					max = v
